@@ -203,12 +203,18 @@ func parseDirective(vars []RvInstruction, device bool) *RvDirective { //nolint:g
 			}
 
 		case RVExtRV:
-			mech, args := cbor.ArrayShift(v.Value)
-			if len(mech) > 0 {
-				if err := cbor.Unmarshal(mech, &dir.ExtMechanism); err == nil {
-					dir.ExtArguments = args
-				}
+			// The value must be one well-formed array. cbor.ArrayShift panics
+			// on empty input and passes truncated or trailing data through.
+			var elems []cbor.RawBytes
+			if err := cbor.Unmarshal(v.Value, &elems); err != nil || len(elems) == 0 {
+				continue
 			}
+			var mechanism string
+			if err := cbor.Unmarshal(elems[0], &mechanism); err != nil {
+				continue
+			}
+			_, args := cbor.ArrayShift(v.Value)
+			dir.ExtMechanism, dir.ExtArguments = mechanism, args
 
 		case RVDelaysec:
 			var secs time.Duration
